@@ -2,7 +2,7 @@
    consensus-manager blueprints executed through scrypto-test's LedgerSimulator). *)
 From Coq Require Import List ZArith Bool.
 Import ListNotations.
-Require Import RV.Model.C42_Staking.
+Require Import RV.Model.C42_Staking RV.Model.C42_Index.
 Open Scope Z_scope.
 
 Fixpoint zz_eqb (a b : list (Z * Z)) : bool :=
@@ -26,6 +26,15 @@ Inductive obs :=
    supply, pending-withdraw vault, owner's locked units, fee factor, registered), rewards vault,
    proposer rewards, epoch *)
 | OInit (vals : list (Z * Z * Z * Z * Z * bool)) (vault : Z) (proposer : list (Z * Z)) (epoch : Z)
+        (prefixes : list Z) (reqs : list (option (Z * Z)))   (* sorted_key prefix (65536 = none), fee change request *)
+(* the consensus manager's sorted index read from the database after the previous operation:
+   (prefix, validator, stake) *)
+| OIdx (idx : list (Z * Z * Z))
+(* register (true) / unregister (false) of validator i, executed successfully *)
+| OReg (i : Z) (b : bool)
+(* update_fee(ff) of validator i with num_fee_increase_delay_epochs = delay: succeeded?, stored fee
+   factor and pending request afterwards *)
+| OFee (i ff delay : Z) (ok : bool) (stored' : Z) (req' : option (Z * Z))
 (* validator i: stake x into (v, u): observed (units, v', u') and index prefix after (65536 = none) *)
 | OStake (i x v u : Z) (res : Z * Z * Z) (registered : bool) (prefix : Z)
 (* validator i: unstake units (num_unstake_epochs nue); pending-withdraw vault after *)
@@ -65,7 +74,10 @@ Definition val_ok (emis rew : list (Z * Z)) (in_emis : Z -> bool) (r : vrec) : b
 (* each operation on its own, against the pre-state the harness read from the ledger *)
 Definition check_obs (o : obs) : bool :=
   match o with
-  | OInit _ _ _ _ => true
+  | OInit _ _ _ _ _ _ => true
+  | OIdx _ => true
+  | OReg _ _ => true
+  | OFee _ ff _ ok _ _ => if ok then true else (ff <? 0) || (DD <? ff)
   | OStake _ x v u res reg pre =>
       o3_eqb (stake x v u) res && prefix_ok reg (snd (fst res)) pre
   | OUnstake _ units _ v u res reg pre _ =>
@@ -81,20 +93,22 @@ Definition check_obs (o : obs) : bool :=
       end
   end.
 
-(* the whole history against the state machine [sstep]: the model state is threaded through the
-   operations and must agree with every value the harness read from the ledger *)
-Definition vget (s : sys) (i : Z) : option vst := nth_error (svals s) (Z.to_nat i).
-Definition vsu_is (s : sys) (i v u : Z) : bool :=
+(* the whole history against the two-layer state machine [istep]: the model state (vaults, claims,
+   rewards, epoch, sorted keys, index, fee requests) is threaded through the operations and must
+   agree with every value the harness read from the ledger *)
+Definition vget (s : ist) (i : Z) : option vst := nth_error (svals (ibase s)) (Z.to_nat i).
+Definition vsu_is (s : ist) (i v u : Z) : bool :=
   match vget s i with Some x => (sv x =? v) && (su x =? u) | None => false end.
 Definition mk_vst (r : Z * Z * Z * Z * Z * bool) : vst :=
   let '(v, u, p, l, ff, reg) := r in
   {| sv := v; su := u; spend := p; slock := l; sff := ff; sreg := reg; sclaims := [] |}.
+Definition ok_of {A} (r : ires A) : option A := match r with IOk a => Some a | _ => None end.
 (* fees collected since the last observation, reconstructed from the observed counters *)
-Fixpoint fee_ops (obs_prop : list (Z * Z)) (s : sys) : option sys :=
+Fixpoint fee_ops (obs_prop : list (Z * Z)) (s : ist) : option ist :=
   match obs_prop with
   | [] => Some s
   | (k, p) :: rest =>
-      match sstep s (SFee k (p - lookup k (sprop s)) 0) with
+      match ok_of (istep s (IFee k (p - lookup k (sprop (ibase s))) 0)) with
       | Some s' => fee_ops rest s'
       | None => None
       end
@@ -105,29 +119,63 @@ Fixpoint zs_eqb (a b : list Z) : bool :=
   | x :: a', y :: b' => (x =? y) && zs_eqb a' b'
   | _, _ => false
   end.
+Definition oreq_eqb (a b : option (Z * Z)) : bool :=
+  match a, b with
+  | Some (x, y), Some (x', y') => (x =? x') && (y =? y')
+  | None, None => true
+  | _, _ => false
+  end.
+Definition key_of_prefix (p : Z) : option Z := if p =? 65536 then None else Some p.
+Definition keys_match (s : ist) (i prefix : Z) : bool :=
+  match getk (ikeys s) i, key_of_prefix prefix with
+  | Some a, Some b => a =? b
+  | None, None => true
+  | _, _ => false
+  end.
+Definition idx_match (s : ist) (idx : list (Z * Z * Z)) : bool :=
+  forallb (fun e : Z * Z * Z => let '(p, i, st) := e in
+             match getk (iindex s) i with Some (p', st') => (p =? p') && (st =? st') | None => false end) idx
+  && (length idx =? length (filter (fun e : option (Z * Z) => match e with Some _ => true | None => false end) (iindex s)))%nat.
 
-Definition hist_step (st : option sys) (o : obs) : option sys :=
+Definition hist_step (st : option ist) (o : obs) : option ist :=
   match o, st with
-  | OInit vals vault proposer epoch, _ =>
+  | OInit vals vault proposer epoch prefixes reqs, _ =>
       (* pending-withdraw vaults are empty at genesis (no claim NFT exists yet) *)
       if forallb (fun r : Z * Z * Z * Z * Z * bool => snd (fst (fst (fst r))) =? 0) vals then
-        Some {| svals := map mk_vst vals; srv := vault; sprop := proposer; sepoch := epoch;
-                g_in := 0; g_out := 0; g_mint := 0 |}
+        let b := {| svals := map mk_vst vals; srv := vault; sprop := proposer; sepoch := epoch;
+                    g_in := 0; g_out := 0; g_mint := 0 |} in
+        Some {| ibase := b; ikeys := map key_of_prefix prefixes;
+                (* the index is taken from the first OIdx that follows *)
+                iindex := map (fun _ => None) vals; ireq := reqs |}
       else None
   | _, None => None
-  | OStake i x v u (m, v', u') _ _, Some s =>
+  | OIdx idx, Some s =>
+      if (sepoch (ibase s) >=? 0) && forallb (fun e : option (Z * Z) => match e with None => true | Some _ => false end) (iindex s)
+         && negb (forallb (fun k : option Z => match k with None => true | Some _ => false end) (ikeys s))
+      then (* first observation after OInit: adopt it, but it must agree with the sorted keys and stakes *)
+        let s0 := {| ibase := ibase s; ikeys := ikeys s;
+                     iindex := fold_left (fun acc (e : Z * Z * Z) => let '(p, i, st) := e in set_nth (Z.to_nat i) (Some (p, st)) acc) idx (iindex s);
+                     ireq := ireq s |} in
+        if forallb (fun e : Z * Z * Z => let '(p, i, st) := e in
+                      match getk (ikeys s0) i, vget s0 i with
+                      | Some k, Some v => (k =? p) && (sv v =? st) && sreg v
+                      | _, _ => false
+                      end) idx && idx_match s0 idx
+        then Some s0 else None
+      else if idx_match s idx then Some s else None
+  | OStake i x v u (m, v', u') _ pre, Some s =>
       if vsu_is s i v u then
-        match sstep s (SStake i x) with
-        | Some s' => if vsu_is s' i v' u' then Some s' else None
+        match ok_of (istep s (IStake i x)) with
+        | Some s' => if vsu_is s' i v' u' && keys_match s' i pre then Some s' else None
         | None => None
         end
       else None
-  | OUnstake i n nue v u (c, v', u') _ _ pend', Some s =>
+  | OUnstake i n nue v u (c, v', u') _ pre pend', Some s =>
       if vsu_is s i v u then
-        match sstep s (SUnstake i n nue) with
+        match ok_of (istep s (IUnstake i n nue)) with
         | Some s' =>
             match vget s' i with
-            | Some x => if (sv x =? v') && (su x =? u') && (spend x =? pend') &&
+            | Some x => if (sv x =? v') && (su x =? u') && (spend x =? pend') && keys_match s' i pre &&
                            (match sclaims x with (c0, _) :: _ => c0 =? c | [] => false end)
                         then Some s' else None
             | None => None
@@ -136,25 +184,38 @@ Definition hist_step (st : option sys) (o : obs) : option sys :=
         end
       else None
   | OClaim i amt ce cur ok got pend', Some s =>
-      if sepoch s =? cur then
-        match sstep s (SClaim i amt ce), ok with
+      if sepoch (ibase s) =? cur then
+        match ok_of (istep s (IClaim i amt ce)), ok with
         | Some s', true =>
             match vget s' i with Some x => if spend x =? pend' then Some s' else None | None => None end
         | None, false => Some s
         | _, _ => None
         end
       else None
+  | OReg i b, Some s =>
+      match ok_of (istep s (IRegister i b)) with
+      | Some s' => match vget s' i with Some x => if Bool.eqb (sreg x) b then Some s' else None | None => None end
+      | None => None
+      end
+  | OFee i ff delay ok stored' req', Some s =>
+      match ok_of (istep s (IUpdateFee i ff delay)), ok with
+      | Some s', true => if (vff (ibase s') i =? stored') && oreq_eqb (getk (ireq s') i) req' then Some s' else None
+      | None, false => Some s
+      | _, _ => None
+      end
   | OEpoch te minrel _ active proposer vault _ _ vals _ _ locks vault' epoch', Some s =>
       match fee_ops proposer s with
       | Some s1 =>
-          match sstep s1 (SFee 0 0 (vault - srv s1)) with
+          match ok_of (istep s1 (IFee 0 0 (vault - srv (ibase s1)))) with
           | Some s2 =>
-              if forallb (fun it : Z * Z => lookup (fst it) (sprop s2) =? snd it) proposer &&
-                 forallb (fun r : vrec => let '(id, (v, u, ff), _, _) := r in vsu_is s2 id v u) vals then
-                match sstep s2 (SEpoch te minrel active) with
+              if forallb (fun it : Z * Z => lookup (fst it) (sprop (ibase s2)) =? snd it) proposer &&
+                 forallb (fun r : vrec => let '(id, (v, u, ff), _, _) := r in
+                            vsu_is s2 id v u &&
+                            (effective_ff (vff (ibase s2) id) (getk (ireq s2) id) (sepoch (ibase s2)) =? ff)) vals then
+                match ok_of (istep s2 (IEpoch te minrel active)) with
                 | Some s3 =>
-                    if forallb (fun r : vrec => let '(id, _, (v', u'), _) := r in vsu_is s3 id v' u') vals &&
-                       zs_eqb (map slock (svals s3)) locks && (srv s3 =? vault') && (sepoch s3 =? epoch')
+                    if forallb (fun r : vrec => let '(id, _, (v', u'), pre) := r in vsu_is s3 id v' u' && keys_match s3 id pre) vals &&
+                       zs_eqb (map slock (svals (ibase s3))) locks && (srv (ibase s3) =? vault') && (sepoch (ibase s3) =? epoch')
                     then Some s3 else None
                 | None => None
                 end
@@ -170,11 +231,11 @@ Definition hist_step (st : option sys) (o : obs) : option sys :=
    counters against mistakes in this file) *)
 Definition hist_ok (c : list obs) : bool :=
   match c with
-  | OInit vals vault proposer epoch :: rest =>
-      match hist_step None (OInit vals vault proposer epoch) with
+  | OInit vals vault proposer epoch prefixes reqs :: rest =>
+      match hist_step None (OInit vals vault proposer epoch prefixes reqs) with
       | Some s0 =>
           match fold_left hist_step rest (Some s0) with
-          | Some s => held s + g_out s =? held s0 + g_in s + g_mint s
+          | Some s => held (ibase s) + g_out (ibase s) =? held (ibase s0) + g_in (ibase s) + g_mint (ibase s)
           | None => false
           end
       | None => false
